@@ -140,7 +140,7 @@ func c14Families(tier string) []explore.Family {
 	}
 	nCfg := 64
 	G, A, B, M := len(graphs), len(c14Args), len(c14Bodies), len(mains)
-	return []explore.Family{c14ChangeFamily(), c14TwoRootsFamily(), c14ChainFamily(), c14NamesFamily(), c14ScopeFamily(), {Name: "include-configurations", Count: int64(nCfg * G * A * B * M * 2), Run: func(i int64, r *explore.Rec) {
+	return []explore.Family{c14ChangeFamily(), c14TwoRootsFamily(), c14ChainFamily(), c14NamesFamily(), c14ScopeFamily(), c14BareNameFamily(), {Name: "include-configurations", Count: int64(nCfg * G * A * B * M * 2), Run: func(i int64, r *explore.Rec) {
 		rx := radix{i}
 		noPath := rx.next(2) == 1
 		mi, bi, ai, gi, cfg := rx.next(M), rx.next(B), rx.next(A), rx.next(G), rx.next(nCfg)
@@ -514,6 +514,8 @@ func c14ScopeFamily() explore.Family {
 		"{% case i %}{% when 2 %}X{% endcase %}"}
 	binders := []string{"{% assign y = 'inc' %}", "{% capture y %}inc{% endcapture %}", "{% assign y = y | append: '+' %}", "{% for y in (7..7) %}{% endfor %}", "{% assign y = 'inc' %}{{ y }}"}
 	mains := []string{
+		// (the included file is named like the variable it reads: the includer's value is what it sees)
+		"{% assign y = 'main' %}{% include 'p.inc' %}{% include 'y.inc' %}{% include 'sub/y.inc' %}",
 		"{% assign y = 'main' %}{% include 'p.inc' %}[{{ y }}]",
 		"{% include 'p.inc' %}[{{ y }}]",
 		"{% assign y = 'main' %}{% include 'p.inc' %}{% include 'show.inc' %}",
@@ -547,6 +549,9 @@ func c14ScopeFamily() explore.Family {
 			}
 			put("p.inc", "<"+strings.Replace(place, "X", binders[bi], 1)+">")
 			put("show.inc", "({{ y }})")
+			put("y.inc", "<y={{ y }}>")
+			os.MkdirAll(filepath.Join(dir, "sub"), 0o755)
+			put("sub/y.inc", "<sub-y={{ y }}{% if y %}T{% else %}F{% endif %}>")
 			put("outer.inc", "{% include 'p.inc' %}{% include 'show.inc' %}")
 			var o Outcome
 			o.Panic = explore.Safe(func() {
@@ -576,6 +581,54 @@ func c14ScopeFamily() explore.Family {
 		if got.String() != want.String() {
 			r.Violation("N3:binding-place-in-included-file-matters", map[string]any{"main": mains[mi], "p.inc": "<" + strings.Replace(places[pi], "X", binders[bi], 1) + ">", "show.inc": "({{ y }})", "outer.inc": "{% include 'p.inc' %}{% include 'show.inc' %}", "cached": cached},
 				want.String()+" (as with the tag at the top level of p.inc)", got.String())
+		}
+	}}
+}
+
+// c14BareNameFamily: a source cached under a BARE relative name is not what an include from another directory means:
+// {% include "x.inc" %} in d/main.html is d/x.inc - with nothing there (disk or cache) the render fails, whatever
+// else the cache holds under "x.inc", "./x.inc" or the name relative to another directory.
+func c14BareNameFamily() explore.Family {
+	decoys := []string{"x.inc", "./x.inc", "other/x.inc", "/x.inc", "d/../x.inc"}
+	mains := []string{`{% include "x.inc" %}`, `{% assign n = "x.inc" %}{% include n %}`, `{% include "x" | append: ".inc" %}`}
+	return explore.Family{Name: "sources-cached-under-other-names", Count: int64(len(decoys) * len(mains) * 2 * 2), Run: func(i int64, r *explore.Rec) {
+		rx := radix{i}
+		present, abs, main, decoy := rx.next(2) == 1, rx.next(2) == 1, mains[rx.next(len(mains))], decoys[rx.next(len(decoys))]
+		eng := liquid.NewEngine()
+		base := "site"
+		if abs {
+			base = filepath.Join(c14.root, "bare", "site")
+		}
+		if _, err := eng.ParseTemplateAndCache([]byte("DECOY"), decoy, 1); err != nil {
+			panic(explore.BaselineFailure{Msg: err.Error()})
+		}
+		if present {
+			if _, err := eng.ParseTemplateAndCache([]byte("REAL"), filepath.Join(base, "d", "x.inc"), 1); err != nil {
+				panic(explore.BaselineFailure{Msg: err.Error()})
+			}
+		}
+		r.Eval()
+		r.Transition()
+		var o Outcome
+		o.Panic = explore.Safe(func() {
+			tpl, err := eng.ParseTemplateLocation([]byte(main), filepath.Join(base, "d", "main.html"), 1)
+			if err != nil {
+				o.Err = err
+				return
+			}
+			out, rerr := tpl.Render(map[string]any{})
+			o.Out, o.Err = string(out), rerr
+		})
+		r.Class(fmt.Sprintf("bare-name/%v/%s", present, o.Class()))
+		r.State("bare-name")
+		desc := map[string]any{"main": main, "main_path": filepath.Join(base, "d", "main.html"), "cached_decoy": decoy, "real_file_cached": present}
+		switch {
+		case o.Panic != nil:
+			r.Violation("N2:panic", desc, "output or a SourceError", o.String())
+		case present && (o.Err != nil || o.Out != "REAL"):
+			r.Violation("N1:wrong-file", desc, "REAL", o.String())
+		case !present && o.Err == nil:
+			r.Violation("N2:no-error:source-cached-under-another-name-rendered", desc, "a SourceError: there is no d/x.inc", o.String())
 		}
 	}}
 }
